@@ -36,6 +36,30 @@ EXPLANATION = (
 ALLOWED_FUNCS = {'abs', 'max', 'min', 'sum', 'pow', 'round', 'float', 'sqrt', 'exp', 'log', 'log10'}
 
 
+def _says_nonempty(e, val, names):
+    """the fact `e is val` says that one of the collections `names` (or the alias registry) is not empty"""
+    def is_coll(x):
+        return (isinstance(x, ast.Name) and x.id in names) or (isinstance(x, ast.Attribute) and x.attr == 'Aliases')
+    if is_coll(e):
+        return val is True
+    if isinstance(e, ast.Call) and call_name(e) == 'len' and e.args and is_coll(e.args[0]):
+        return val is True
+    if isinstance(e, ast.Compare) and len(e.ops) == 1 and isinstance(e.left, ast.Call) and call_name(e.left) == 'len' and e.left.args and \
+            is_coll(e.left.args[0]) and isinstance(e.comparators[0], ast.Constant):
+        k, op = e.comparators[0].value, e.ops[0]
+        if k == 0:
+            if isinstance(op, ast.Eq):
+                return val is False
+            if isinstance(op, (ast.NotEq, ast.Gt)):
+                return val is True
+        if k == 1:
+            if isinstance(op, ast.GtE):
+                return val is True
+            if isinstance(op, ast.Lt):
+                return val is False
+    return False
+
+
 def run(prog, check):
     check.explanation = EXPLANATION
     check.not_decided = ('closedness of user-supplied equations; uniqueness of full codes when codes themselves contain "_"; '
@@ -138,6 +162,10 @@ def run(prog, check):
     helpers = [f for f in family if f is not san and any(isinstance(c, ast.Call) and call_name(c) in REPL for c in ast.walk(f.node))]
     helper_keys = {h.key for h in helpers}
     san_flat = flatten(prog, san, accept=lambda callee: callee.key not in helper_keys)
+    try:
+        san_cfg = cfgmod.build(san_flat)
+    except Exception:
+        san_cfg = None
     for f in family:
         check.saw(f)
     lookups = {t for n in ast.walk(san_flat.node) if isinstance(n, ast.Assign) and isinstance(n.value, (ast.Dict, ast.DictComp)) for t in target_names(n.targets[0])}
@@ -245,6 +273,20 @@ def run(prog, check):
                               for e in sl for c in ast.walk(e))
             if reads_old and uses_lookup:
                 rewritten = True
+                # the rewrite may be skipped only when there is nothing to replace: every branch outcome it depends on must say
+                # "the lookup / the alias registry is not empty" (an inverted early return skips it exactly when placeholders exist)
+                if san_cfg is not None:
+                    nd_ = san_cfg.node_of(n)
+                    bad_c = []
+                    for t_, o_ in (san_cfg.conditions_at(nd_) if nd_ is not None else []):
+                        for _txt, v_, e_ in atomic_facts(t_, o_):
+                            if not _says_nonempty(e_, v_, lookups):
+                                bad_c.append(('' if v_ else 'not ') + unparse(e_))
+                    check.ob('C05.R1', '%s::sink(%s)::not-skipped-when-placeholders-exist' % (san.key, attr), not bad_c,
+                             '%s:%d' % (san.module.rel, n.lineno),
+                             'the rewrite runs whenever the lookup is non-empty' if not bad_c else
+                             'the rewrite of self.%s only happens when `%s`: with registered placeholders it is skipped' % (attr, ' and '.join(bad_c)),
+                             'one placeholder requested before main() and embedded in a model-level equation')
         check.ob('C05.R1', '%s::sink(%s)::rewritten-by-alias-pass' % (san.key, attr), rewritten, san.where,
                  'self.%s (%s) is rewritten with the alias lookup' % (attr, text_sinks[attr]) if rewritten else
                  'self.%s (%s) is not touched by the alias pass: a placeholder embedded there survives into the final equations' % (attr, text_sinks[attr]),
